@@ -67,6 +67,23 @@ def random_shape(rng):
     return dict(species=list(SPECIES), reactions=rx, parameters=params, rules=rules)
 
 
+def rename_species(c, mapping):
+    """the same model with some species called like reserved words of the expression language up to case (T, Volume): ordinary species"""
+    pat = re.compile(r'\b(%s)\b' % '|'.join(map(re.escape, mapping)))
+    sub = lambda t: pat.sub(lambda m: mapping[m.group(1)], t) if isinstance(t, str) else t
+    ren = lambda L: [mapping.get(x, x) for x in L]
+    rx = []
+    for r in c['reactions']:
+        r = list(r)
+        r[0], r[1] = ren(r[0]), ren(r[1])
+        r[3] = {k: (mapping.get(v, v) if k in ('s1', 'd') else sub(v) if k == 'rate' else v) for k, v in r[3].items()}
+        if len(r) == 8:
+            r[5], r[6] = ren(r[5]), ren(r[6])
+        rx.append(tuple(r))
+    rules = [tuple([r[0], {k: sub(v) for k, v in r[1].items()}] + list(r[2:])) for r in c['rules']]
+    return dict(species=ren(c['species']), reactions=rx, parameters=c['parameters'], rules=rules, x0={mapping.get(k, k): v for k, v in c['x0'].items()})
+
+
 def rhs_value(eq, env):
     rhs = eq.split('=', 1)[1].replace('^', '**')
     return eval(rhs, {'__builtins__': {}}, dict(env, exp=math.exp, log=math.log, ln=math.log, Abs=abs))
@@ -181,7 +198,10 @@ def main():
         sh = random_shape(rng)
         for sto in (False, True):
             n += 1
-            bad = check(concretise(sh, rng), rng, sto)
+            c = concretise(sh, rng)
+            if it % 4 == 3:
+                c = rename_species(c, {'B': 'T', 'D': 'Volume'})
+            bad = check(c, rng, sto)
             if bad:
                 return bad
     return dict(reproduced=False, checked=n, mode='random models')
